@@ -1,9 +1,11 @@
-use crate::solvers::common::{DisplayValue, LpSolution, SolverError, format_float};
+use crate::solvers::common::{
+    DisplayValue, LpSolution, SolutionStatus, SolverError, format_float,
+};
 use crate::transformers::LinearModel;
 use crate::{
     Assignment, Comparison, OptimizationType, VariableType, make_constraints_map_from_assignment,
 };
-use microlp::{ComparisonOp, Error, OptimizationDirection, Problem, SolveOptions};
+use microlp::{ComparisonOp, Error, OptimizationDirection, Problem, SolveOptions, Status};
 use serde::{Deserialize, Serialize};
 use std::fmt::{Display, Formatter};
 use std::time::Duration;
@@ -184,6 +186,14 @@ pub fn solve_milp_lp_problem_with(
 
     match problem.solve_with(solve_options) {
         Ok(s) => {
+            // MicroLP also answers `Ok` when a limit stopped the search. With an
+            // incumbent the values are a feasible, unproven solution; without
+            // one they are only the search's working point, not a solution.
+            let status = match s.status() {
+                Status::Optimal => SolutionStatus::Optimal,
+                Status::Feasible => SolutionStatus::Feasible,
+                Status::Interrupted => return Err(SolverError::LimitReached),
+            };
             let assignment = microlp_vars
                 .iter()
                 .zip(variables)
@@ -209,7 +219,8 @@ pub fn solve_milp_lp_problem_with(
                 assignment,
                 s.objective() + lp.objective_offset(),
                 constraints,
-            ))
+            )
+            .with_status(status))
         }
         Err(e) => Err(match e {
             Error::InternalError(s) => SolverError::Other(s),
